@@ -420,13 +420,23 @@ def translation_stage(mod):
     res = {"ok": False, "qdir": None, "theorems": [], "problems": [], "generated_sha": None, "cached": False,
            "functions": [f"{it[0]}:{it[1]}" + (f"[slice {it[2]['name']}]" if len(it) > 2 else "")
                          for it in tr["spec"]["functions"]]}
+    def undischarged():
+        out = []
+        for pf in proofs:
+            src = strip_coq_comments(open(os.path.join(TRANSLATED, pf + ".v")).read())
+            for nm in re.findall(r"Print\s+Assumptions\s+([A-Za-z0-9_'.]+)\s*\.", src):
+                out.append({"name": nm, "closed": False, "axioms": ["<not checked: no generated module>"], "ok": False})
+        return out
+
     try:
         text = pytrans.translate(tr["spec"], REPO)
     except pytrans.Untranslatable as e:
         res["problems"].append(f"translator: the current source is outside the translated subset: {e}")
+        res["theorems"] = undischarged()
         return res
     except (OSError, SyntaxError) as e:
         res["problems"].append(f"translator: cannot read the source: {e}")
+        res["theorems"] = undischarged()
         return res
     res["generated_sha"] = hashlib.sha256(text.encode()).hexdigest()[:16]
     h = hashlib.sha256()
